@@ -12,5 +12,5 @@ for pid in "$@"; do
   echo "$(basename $diff) $pid exit $rc"
   [ $rc -ne 0 ] && rc_all=$rc
 done
-git checkout -- .
+git apply -R "$diff" 2>/dev/null; git checkout -- .; git clean -fdq src
 exit $rc_all
